@@ -223,6 +223,13 @@ def _consistent(steps: list[Step], new: Step) -> bool:
             # constant propagation for ``name = <const>`` followed by ``if name``
             if isinstance(test, ast.Name) and sa_ is not None and sa_[0].id == test.id and isinstance(sa_[1], ast.Constant):
                 return bool(sa_[1].value) == polarity
+            # ``a, name = (x, <const>)`` binds name to the constant just the same
+            if isinstance(test, ast.Name) and prev.kind == "stmt" and isinstance(prev.node, ast.Assign) and len(prev.node.targets) == 1:
+                tt, vv = prev.node.targets[0], prev.node.value
+                if isinstance(tt, (ast.Tuple, ast.List)) and isinstance(vv, (ast.Tuple, ast.List)) and len(tt.elts) == len(vv.elts):
+                    for te, ve in zip(tt.elts, vv.elts):
+                        if isinstance(te, ast.Name) and te.id == test.id and isinstance(ve, ast.Constant):
+                            return bool(ve.value) == polarity
             return True
     del key
     return True
